@@ -459,6 +459,7 @@ def must_checks(C, P):
     ev = P.adts.get('ArxmlEvent')
     eof_idx = [str(i) for i, v in enumerate(ev['variants']) if v['name'] == 'EndOfFile'] if ev else []
     cut = set()
+    eof_shared = []
     for pos, st in ve.iter_stmts():
         if st['k'] == 'assign' and st['rv']['k'] == 'discr' and not st['dst']['p']:
             pl = st['rv']['pl']
@@ -470,12 +471,19 @@ def must_checks(C, P):
                     tgt = dict(sw['ts']).get(eof_idx[0])
                     if tgt is not None:
                         cut.add((pos[0], tgt))
+                        # the edge is identified by its target block: no OTHER event may share the arm of EndOfFile (`EndOfFile | Comment(_) => Ok(())`)
+                        shared = [v for v, tb in sw['ts'] if tb == tgt and v != eof_idx[0]] + (['_'] if sw['else'] == tgt else [])
+                        if shared:
+                            eof_shared.append((pos, shared))
     if not nx or not eof_idx or not cut:
         C.anchor_missing('C08-MUST-checks', 'verify_end_of_input: lexer.next / test for the EndOfFile event')
     else:
         # (flag-sensitive: `if matches!(event, EndOfFile) { return Ok(()) }` first materialises the bool)
         ok = must_pass(ve, nx[0], voks, oe, avoid_edges=cut, include_start=False, precise=True) if voks else True
         ret_other = [pos for pos, t in ve.iter_calls() if t['dst']['l'] == 0 and not t['dst']['p'] and not call_matches(t, r'optional_error$|from_residual$')]
+        if eof_shared:
+            names_ = [ev['variants'][int(v)]['name'] if v != '_' else 'other events' for v in eof_shared[0][1]]
+            C.fail('C08-MUST-checks', 'verify_end_of_input|EndOfFile-arm-shared|' + '+'.join(names_), 'verify_end_of_input treats %s like EndOfFile (same match arm): data after the root element is accepted without a finding' % ', '.join(names_), ve.where(eof_shared[0][0]))
         C.check(ok and not ret_other, 'C08-MUST-checks', 'verify_end_of_input|ok-only-for-EOF-or-after-report', 'verify_end_of_input can return Ok for an event other than EndOfFile without passing optional_error(AdditionalDataError)',
                 ve.where(voks[0]) if voks else '', sample={'fn': 'verify_end_of_input', 'ok_exits': len(voks), 'must_pass': 'optional_error unless the event is EndOfFile'})
 
